@@ -173,8 +173,9 @@ def random_plan(seed, idx):
         elif k < 0.98:
             b.call("stop")
         else:
-            b.call("conn_lost")
-    return b.plan(seed, "random", {"sock_flip": r.choice([0, 0.5, 1.0]), "timings": {"SEND_COLLECTION_TIMEOUT": r.choice([0, 0.005, 0.05])}})
+            b.call("conn_lost", r.choice([[], ["u"]]))
+    # non-cyclic offering (the offer task finishes after the repetitions) is a legal configuration of the instance
+    return b.plan(seed, "random", {"sock_flip": r.choice([0, 0.5, 1.0]), "timings": {"SEND_COLLECTION_TIMEOUT": r.choice([0, 0.005, 0.05]), "CYCLIC_OFFER_DELAY": r.choice([1000, 1000, 0, 0.7])}})
 
 
 def gen(seed, idx, tier):
